@@ -34,7 +34,9 @@ pub struct Plan {
 	pub stay_pct: u64,
 }
 
-pub fn build_world(seed: u64) -> Result<World, String> {
+/// `long`: a chain long enough for Chain::compact to act (head >= 81 with AutomatedTesting
+/// parameters) with a short competing fork at the tip.
+pub fn build_world(seed: u64, long: bool) -> Result<World, String> {
 	let mut r = SimRng::new(seed).fork("cfg");
 	let mut cfg = WorldCfg::draw(&mut r, true);
 	cfg.free_difficulty = false;
@@ -45,6 +47,14 @@ pub fn build_world(seed: u64) -> Result<World, String> {
 	cfg.tx_pct = 50;
 	cfg.max_txs = 2;
 	cfg.reorg_pct = 60;
+	if long {
+		cfg.trunk = r.range(87, 92);
+		cfg.branches = 1;
+		cfg.max_branch_depth = r.range(2, 4);
+		cfg.fork_near_tip = 4;
+		cfg.tx_pct = 30;
+		cfg.max_txs = 1;
+	}
 	let mut w = World::new(seed, cfg, "sched-w");
 	w.generate_tree()?;
 	Ok(w)
@@ -53,7 +63,12 @@ pub fn build_world(seed: u64) -> Result<World, String> {
 pub fn draw_plan(world: &World, rng: &mut SimRng) -> Plan {
 	let n = world.blocks.len();
 	let trunk: Vec<usize> = world.blocks.iter().filter(|b| b.branch == 0).map(|b| b.id).filter(|i| *i > 0).collect();
-	let k = rng.range(1, (trunk.len() as u64 / 2).max(1)) as usize;
+	let mut k = rng.range(1, (trunk.len() as u64 / 2).max(1)) as usize;
+	let long = trunk.len() > 80;
+	if long {
+		// leave the last 4-6 trunk blocks (and the fork) to the threads; the prefix reaches height >= 81
+		k = trunk.len() - rng.range(4, 6) as usize;
+	}
 	let pre: Vec<usize> = trunk.iter().cloned().take(k).collect();
 	let rest: Vec<usize> = (1..n).filter(|i| !pre.contains(i)).collect();
 	let n_peers = rng.range(2, 3) as usize;
@@ -83,7 +98,7 @@ pub fn draw_plan(world: &World, rng: &mut SimRng) -> Plan {
 		reader_iters: rng.range(3, 8) as usize,
 		builder_thread: rng.chance(1, 2),
 		segment_thread: rng.chance(1, 2),
-		compactor_thread: rng.chance(1, 3),
+		compactor_thread: long || rng.chance(1, 3),
 		stay_pct: *rng.pick(&[30u64, 60, 85]),
 	}
 }
@@ -94,8 +109,31 @@ struct Shared {
 	reader_obs: u64,
 }
 
+/// Builds the state every run of a plan starts from (all headers, then the plan's prefix of block
+/// bodies) once; the children work on copies of it.
+pub fn build_base(world: &World, plan: &Plan, tag: &str) -> Result<std::path::PathBuf, String> {
+	let dir = fresh_dir(tag);
+	let adapter = Arc::new(RecAdapter::default());
+	let chain = Chain::init(dir.join("chain_data").to_str().unwrap().to_string(), adapter, world.genesis.clone(), pow::verify_size, false, None).map_err(|e| format!("init: {:?}", e))?;
+	let opts: Options = world.opts;
+	// all headers first (so that every order of bodies is a legal history), then the prefix
+	let mut order: Vec<usize> = (1..world.blocks.len()).collect();
+	order.sort_by_key(|i| (world.blocks[*i].height, *i));
+	for id in &order {
+		chain.process_block_header(&world.blocks[*id].block.header, opts).map_err(|e| format!("header #{}: {:?}", id, e))?;
+	}
+	for id in &plan.pre {
+		chain.process_block(world.blocks[*id].block.clone(), opts).map_err(|e| format!("pre block #{}: {:?}", id, e))?;
+	}
+	drop(chain);
+	Ok(dir)
+}
+
 /// The body of one run, executed in the child process. Returns a JSON result.
-fn run_in_child(world: &World, plan: &Plan, seed: u64, replay: Option<Vec<u32>>, dir: &Path) -> Value {
+fn run_in_child(world: &World, plan: &Plan, seed: u64, replay: Option<Vec<u32>>, dir: &Path, base: &Path) -> Value {
+	if let Err(e) = crate::node::copy_dir(base, dir) {
+		return json!({"harness_error": format!("copy base: {:?}", e)});
+	}
 	let adapter = Arc::new(RecAdapter::default());
 	let chain = match Chain::init(
 		dir.join("chain_data").to_str().unwrap().to_string(),
@@ -109,19 +147,6 @@ fn run_in_child(world: &World, plan: &Plan, seed: u64, replay: Option<Vec<u32>>,
 		Err(e) => return json!({"harness_error": format!("init: {:?}", e)}),
 	};
 	let opts: Options = world.opts;
-	// all headers first (so that every order of bodies is a legal history), then the prefix
-	let mut order: Vec<usize> = (1..world.blocks.len()).collect();
-	order.sort_by_key(|i| (world.blocks[*i].height, *i));
-	for id in &order {
-		if let Err(e) = chain.process_block_header(&world.blocks[*id].block.header, opts) {
-			return json!({"harness_error": format!("header #{}: {:?}", id, e)});
-		}
-	}
-	for id in &plan.pre {
-		if let Err(e) = chain.process_block(world.blocks[*id].block.clone(), opts) {
-			return json!({"harness_error": format!("pre block #{}: {:?}", id, e)});
-		}
-	}
 	let shared = Arc::new(Mutex::new(Shared::default()));
 	sched::install(seed, plan.stay_pct, replay, 400_000);
 	let mut handles = vec![];
@@ -315,13 +340,14 @@ fn run_in_child(world: &World, plan: &Plan, seed: u64, replay: Option<Vec<u32>>,
 		"deadlock": out.deadlock.is_some(),
 		"final": final_state,
 		"reader_obs": shared.lock().unwrap().reader_obs,
+		"tail_height": chain.tail().map(|t| t.height).unwrap_or(0),
 		"threads": out.names,
 		"trace_tail": out.trace.iter().rev().take(12).map(|(t, l)| format!("{}:{}", t, l)).collect::<Vec<_>>(),
 	})
 }
 
 /// Fork a child for one run; returns its JSON result.
-pub fn run_forked(world: &World, plan: &Plan, seed: u64, replay: Option<Vec<u32>>, tag: &str) -> Result<Value, String> {
+pub fn run_forked(world: &World, plan: &Plan, seed: u64, replay: Option<Vec<u32>>, tag: &str, base: &Path) -> Result<Value, String> {
 	let dir = fresh_dir(tag);
 	let out_file = dir.join("result.json");
 	let mut spins = 0;
@@ -334,7 +360,7 @@ pub fn run_forked(world: &World, plan: &Plan, seed: u64, replay: Option<Vec<u32>
 		return Err("fork failed".into());
 	}
 	if pid == 0 {
-		let v = std::panic::catch_unwind(std::panic::AssertUnwindSafe(|| run_in_child(world, plan, seed, replay, &dir)))
+		let v = std::panic::catch_unwind(std::panic::AssertUnwindSafe(|| run_in_child(world, plan, seed, replay, &dir, base)))
 			.unwrap_or_else(|_| json!({"harness_error": "child panicked outside simulated threads"}));
 		let _ = std::fs::write(&out_file, serde_json::to_string(&v).unwrap_or_default());
 		unsafe { libc::_exit(0) }
@@ -391,7 +417,8 @@ pub fn case(tier: &str, seed: u64, case: u64) -> CaseResult {
 	let t0 = Instant::now();
 	let thorough = tier == "thorough";
 	let mut res = CaseResult::new(case, seed);
-	let mut world = match build_world(seed) {
+	let long = case % 4 == 3;
+	let mut world = match build_world(seed, long) {
 		Ok(w) => w,
 		Err(e) => {
 			res.harness_error = Some(format!("sched world: {}", e));
@@ -400,22 +427,34 @@ pub fn case(tier: &str, seed: u64, case: u64) -> CaseResult {
 	};
 	let plans = if thorough { 6 } else { 2 };
 	let schedules = if thorough { 40 } else { 12 };
+	if long {
+		res.probe("long_world");
+	}
 	let rng = SimRng::new(seed);
 	let mut determinism_checked = false;
 	'outer: for pi in 0..plans {
 		let mut pr = rng.fork(&format!("plan{}", pi));
 		let plan = draw_plan(&world, &mut pr);
+		let base = match build_base(&world, &plan, &format!("sched-c{}p{}base", case, pi)) {
+			Ok(b) => b,
+			Err(e) => {
+				res.harness_error = Some(format!("base state: {}", e));
+				break 'outer;
+			}
+		};
 		for si in 0..schedules {
 			let sseed = pr.next_u64();
-			let r = match run_forked(&world, &plan, sseed, None, &format!("sched-c{}p{}s{}", case, pi, si)) {
+			let r = match run_forked(&world, &plan, sseed, None, &format!("sched-c{}p{}s{}", case, pi, si), &base) {
 				Ok(v) => v,
 				Err(e) => {
 					res.harness_error = Some(e);
+					let _ = std::fs::remove_dir_all(&base);
 					break 'outer;
 				}
 			};
 			if let Some(e) = r["harness_error"].as_str() {
 				res.harness_error = Some(e.to_string());
+				let _ = std::fs::remove_dir_all(&base);
 				break 'outer;
 			}
 			res.runs += 1;
@@ -424,6 +463,9 @@ pub fn case(tier: &str, seed: u64, case: u64) -> CaseResult {
 			res.probe_n("reader_observations", r["reader_obs"].as_u64().unwrap_or(0));
 			if r["out_of_steps"].as_bool().unwrap_or(false) {
 				res.probe("out_of_steps");
+			}
+			if r["tail_height"].as_u64().unwrap_or(0) >= 20 {
+				res.probe("compaction_moved_tail_under_concurrency");
 			}
 			let sd = u64::from_str_radix(r["switch_digest"].as_str().unwrap_or("0"), 16).unwrap_or(0);
 			res.run_digests.push((sd, r["switches"].as_u64().unwrap_or(0) > 0));
@@ -434,9 +476,10 @@ pub fn case(tier: &str, seed: u64, case: u64) -> CaseResult {
 			// determinism self-test: replaying the recorded choices reproduces the trace exactly
 			if !determinism_checked {
 				let choices: Vec<u32> = serde_json::from_value(r["choices"].clone()).unwrap_or_default();
-				if let Ok(r2) = run_forked(&world, &plan, sseed, Some(choices), &format!("sched-c{}det", case)) {
+				if let Ok(r2) = run_forked(&world, &plan, sseed, Some(choices), &format!("sched-c{}det", case), &base) {
 					if r2["trace_digest"] != r["trace_digest"] {
 						res.harness_error = Some(format!("replay of the recorded schedule diverged: {} vs {}", r["trace_digest"], r2["trace_digest"]));
+						let _ = std::fs::remove_dir_all(&base);
 						break 'outer;
 					}
 					res.probe("replay_identical");
@@ -450,12 +493,14 @@ pub fn case(tier: &str, seed: u64, case: u64) -> CaseResult {
 					res.violations.push(Violation {
 						key: format!("C17:{}", key),
 						what: format!("{} [plan {} schedule seed {}; {} scheduling points, {} switches]", what, pi, sseed, r["points"], r["switches"]),
-						replay: json!({"engine": "schedsim", "property": "C17", "case_seed": seed, "plan": plan_json(&plan), "sched_seed": sseed, "choices": r["choices"], "trace_tail": r["trace_tail"]}),
+						replay: json!({"engine": "schedsim", "property": "C17", "case_seed": seed, "long": long, "plan": plan_json(&plan), "sched_seed": sseed, "choices": r["choices"], "trace_tail": r["trace_tail"]}),
 					});
+					let _ = std::fs::remove_dir_all(&base);
 					break 'outer;
 				}
 			}
 		}
+		let _ = std::fs::remove_dir_all(&base);
 	}
 	world.cleanup();
 	res.wall_s = t0.elapsed().as_secs_f64();
@@ -466,9 +511,12 @@ pub fn replay(rp: &Value) -> Result<Option<Violation>, String> {
 	let seed = rp["case_seed"].as_u64().ok_or("no case_seed")?;
 	let plan = plan_from_json(&rp["plan"]).ok_or("bad plan")?;
 	let choices: Vec<u32> = serde_json::from_value(rp["choices"].clone()).map_err(|e| format!("{}", e))?;
-	let mut world = build_world(seed)?;
-	let r = run_forked(&world, &plan, rp["sched_seed"].as_u64().unwrap_or(0), Some(choices), "sched-replay")?;
+	let mut world = build_world(seed, rp["long"].as_bool().unwrap_or(false))?;
+	let base = build_base(&world, &plan, "sched-replay-base")?;
+	let r = run_forked(&world, &plan, rp["sched_seed"].as_u64().unwrap_or(0), Some(choices), "sched-replay", &base);
+	let _ = std::fs::remove_dir_all(&base);
 	world.cleanup();
+	let r = r?;
 	println!("  points {} switches {} trace {}", r["points"], r["switches"], r["trace_digest"]);
 	if let Some(vs) = r["violations"].as_array() {
 		if let Some(v) = vs.first() {
